@@ -61,6 +61,23 @@ func recvXML(kind, arg string, component bool, pad int) string {
 	case "pres":
 		return fmt.Sprintf("<presence id='%s' from='a@b/c'><show>away</show><status>%s</status></presence>", arg, filler)
 	case "iq":
+		// the shapes of IQ a server sends: a result with a registered payload, an empty result (the usual answer to a
+		// ping or a set), an error that carries only <error/>, an error echoing the request, a result with a payload
+		// nobody registered
+		sum := 0
+		for _, ch := range arg {
+			sum += int(ch)
+		}
+		switch sum % 5 {
+		case 1:
+			return fmt.Sprintf("<iq id='%s' type='result' from='srv'/>", arg)
+		case 2:
+			return fmt.Sprintf("<iq id='%s' type='error' from='srv'><error type='cancel'><service-unavailable xmlns='urn:ietf:params:xml:ns:xmpp-stanzas'/><text xmlns='urn:ietf:params:xml:ns:xmpp-stanzas'>%s</text></error></iq>", arg, filler)
+		case 3:
+			return fmt.Sprintf("<iq id='%s' type='error' from='srv'><query xmlns='jabber:iq:version'/><error type='wait' code=''><internal-server-error xmlns='urn:ietf:params:xml:ns:xmpp-stanzas'/></error></iq>", arg)
+		case 4:
+			return fmt.Sprintf("<iq id='%s' type='result' from='srv'><thing xmlns='urn:verif:unregistered'><name>%s</name></thing></iq>", arg, filler)
+		}
 		return fmt.Sprintf("<iq id='%s' type='result' from='srv'><query xmlns='jabber:iq:version'><name>%s</name></query></iq>", arg, filler)
 	case "r":
 		return "<r xmlns='urn:xmpp:sm:3'/>"
@@ -156,7 +173,7 @@ func (rp recvProp) Exec(c Case) []string {
 // reconnect does what Client.Resume does after the Disconnected event - Client.connect on the kept Session - against
 // a scripted server that offers stream management and confirms the resumption, and reports the <resume/> request.
 func reconnect(client *xmpp.Client, cfg *xmpp.Config, sess *xmpp.Session, smid string, refuse bool) string {
-	reply := "<resumed xmlns='urn:xmpp:sm:3' previd='" + smid + "' h='0'/>"
+	reply := "<resumed xmlns='urn:xmpp:sm:3' previd='" + smid + "' h='57'/>"
 	if refuse {
 		// the server refuses the resumption: a fresh session is bound and stream management enabled anew
 		reply = "<failed xmlns='urn:xmpp:sm:3'><item-not-found xmlns='urn:ietf:params:xml:ns:xmpp-stanzas'/></failed>"
@@ -213,7 +230,13 @@ func reconnect(client *xmpp.Client, cfg *xmpp.Config, sess *xmpp.Session, smid s
 				}
 				return hx(attr("previd")) + ":" + attr("h") + ":" + hx(client.Session.SMState.Id) + ":" + strconv.Itoa(int(client.Session.SMState.Inbound))
 			}
-			return hx(attr("previd")) + ":" + attr("h")
+			// a confirmed resumption continues the session: the count it goes on with is the one it presented (the h of
+			// <resumed/> is the SERVER's count of the client's stanzas - here 57 - and has nothing to do with it)
+			after := "nosession"
+			if client.Session != nil {
+				after = strconv.Itoa(int(client.Session.SMState.Inbound))
+			}
+			return hx(attr("previd")) + ":" + attr("h") + ":" + after
 		}
 	}
 	return "none"
@@ -308,6 +331,9 @@ func (rp *recvProp) run(c Case, component bool, smid string, n0 int, rng *rand.R
 	var disc []string
 	serr := 0
 	router := xmpp.NewRouter()
+	// routes an application typically has in front of its catch-all: by IQ payload namespace, by type
+	router.NewRoute().IQNamespaces("urn:verif:never", "urn:verif:never2").HandlerFunc(func(s xmpp.Sender, p stanza.Packet) {})
+	router.NewRoute().Packet("iq").StanzaType("get").IQNamespaces("urn:verif:never").HandlerFunc(func(s xmpp.Sender, p stanza.Packet) {})
 	replies := c.Variant[0] == "client-replies"
 	if replies {
 		// the outbound half of the connection is already dead: what the handlers send cannot be written
